@@ -268,7 +268,8 @@ def run(prop, mod, tier, seed, tmpdir, a, t0):
     # evidence describes full runs against the repository itself: partial runs
     # (--only / --limit) and runs against a scratch worktree (VERIF_REPO) write
     # their record next to it instead
-    partial = bool(a.limit or a.only) or os.path.realpath(REPO) != '/repo'
+    partial = bool(a.limit or a.only) or os.path.realpath(REPO) != '/repo' \
+        or bool(os.environ.get('VERIF_SCRATCH'))
     os.makedirs(os.path.join(ROOT, 'evidence'), exist_ok=True)
     evname = f'{prop}.partial.json' if partial else f'{prop}.json'
     with open(os.path.join(ROOT, 'evidence', evname), 'w') as f:
